@@ -292,13 +292,17 @@ func runTxFlow(c *Case) ([]Obs, any) {
 				var resp []wire.Message
 				var err error
 				var tracker *state.TxTracker
+				// the observation is "this announcement put t on the connection's tracker": forget an
+				// entry left by an earlier announcement (the tracker is not part of this model)
 				if op.Int(1) != 0 {
-					resp, err = f.node.VerifHandlers()[wire.CmdInv].Handle(ctx, inv)
 					tracker = f.node.VerifTxTracker()
+					tracker.Remove(ctx, h)
+					resp, err = f.node.VerifHandlers()[wire.CmdInv].Handle(ctx, inv)
 				} else {
 					f.ustate.SetVerified()
-					resp, err = f.untrust[wire.CmdInv].Handle(ctx, inv)
 					tracker = f.utracker
+					tracker.Remove(ctx, h)
+					resp, err = f.untrust[wire.CmdInv].Handle(ctx, inv)
 				}
 				if err != nil {
 					return Obs{ERR}
